@@ -15,7 +15,7 @@ Range(s) == {s[i] : i \in 1..Len(s)}
 SeqOf(f, c) == IF c \in DOMAIN f THEN f[c] ELSE <<>>
 Put(f, c, v) == [x \in DOMAIN f \cup {c} |-> IF x = c THEN v ELSE f[x]]
 AllSubmitted == UNION {Range(submitted[c]) : c \in DOMAIN submitted}
-PInit == maxw = 0 /\ ordered = FALSE /\ submitted = <<>> /\ started = {} /\ ended = {} /\ delivered = <<>> /\ workers = {} /\ closed = {}
+PInit == maxw = 0 /\ ordered = {} /\ submitted = <<>> /\ started = {} /\ ended = {} /\ delivered = <<>> /\ workers = {} /\ closed = {}
 Dispatch(c, j) == /\ c \notin closed /\ j \notin AllSubmitted
                   /\ submitted' = Put(submitted, c, Append(SeqOf(submitted, c), j))
                   /\ UNCHANGED <<started, ended, delivered, workers, closed, maxw, ordered>>
@@ -26,7 +26,7 @@ JobStart(j, w) == /\ j \in AllSubmitted /\ j \notin started                     
 JobEnd(j, w) == j \in started /\ j \notin ended /\ ended' = ended \cup {j} /\ UNCHANGED <<submitted, started, delivered, workers, closed, maxw, ordered>>
 Deliver(c, j) == /\ j \in ended /\ j \in Range(SeqOf(submitted, c))                 \* only after the job ran, to its own client
                  /\ j \notin Range(SeqOf(delivered, c))                             \* exactly once
-                 /\ ordered => j = submitted[c][Len(SeqOf(delivered, c)) + 1]        \* in submission order
+                 /\ (c \in ordered) => j = submitted[c][Len(SeqOf(delivered, c)) + 1]        \* in submission order
                  /\ delivered' = Put(delivered, c, Append(SeqOf(delivered, c), j))
                  /\ UNCHANGED <<submitted, started, ended, workers, closed, maxw, ordered>>
 Close(c) == /\ c \notin closed /\ Range(SeqOf(delivered, c)) = Range(SeqOf(submitted, c))    \* returns only after every result was delivered
